@@ -342,14 +342,43 @@ def _cval(e: ast.AST, env: dict, fold=None):
     return _UNKNOWN
 
 
-def eval_test_const(t: ast.AST, env: dict, fold=None):
-    """True / False / None (undecided) for test atom *t* under the constant environment *env*."""
+class _Sym:
+    """A boolean expression bound to a local name (`flag = a == b`), evaluated lazily at the test."""
+
+    def __init__(self, expr):
+        self.expr = expr
+
+    def __repr__(self):
+        return "Sym(%s)" % src(self.expr)
+
+
+def eval_test_const(t: ast.AST, env: dict, fold=None, decide=None):
+    """True / False / None (undecided) for test expression *t* under the constant environment *env*.
+    *decide(atom)* may settle atoms the environment cannot (an oracle for 'assume this comparison holds')."""
+    if isinstance(t, ast.BoolOp):
+        vals = [eval_test_const(v, env, fold, decide) for v in t.values]
+        if isinstance(t.op, ast.And):
+            if any(v is False for v in vals):
+                return False
+            return True if all(v is True for v in vals) else None
+        if any(v is True for v in vals):
+            return True
+        return False if all(v is False for v in vals) else None
+    if isinstance(t, ast.UnaryOp) and isinstance(t.op, ast.Not):
+        v = eval_test_const(t.operand, env, fold, decide)
+        return None if v is None else (not v)
+    if decide is not None:
+        d = decide(t)
+        if d is not None:
+            return d
     if isinstance(t, ast.Name):
         v = _cval(t, env, fold)
+        if isinstance(v, _Sym):
+            return eval_test_const(v.expr, env, fold, decide)
         return None if v is _UNKNOWN else bool(v)
     if isinstance(t, ast.Compare) and len(t.ops) == 1:
         l, r = _cval(t.left, env, fold), _cval(t.comparators[0], env, fold)
-        if l is _UNKNOWN or r is _UNKNOWN:
+        if l is _UNKNOWN or r is _UNKNOWN or isinstance(l, _Sym) or isinstance(r, _Sym):
             return None
         op = t.ops[0]
         try:
@@ -370,11 +399,13 @@ def eval_test_const(t: ast.AST, env: dict, fold=None):
     return None
 
 
-def const_walk(cfg: CFG, starts: Iterable[Node], env0: dict, stop_nodes: Iterable[Node] = (), fold=None, limit: int = 4000):
+def const_walk(cfg: CFG, starts: Iterable[Node], env0: dict, stop_nodes: Iterable[Node] = (), fold=None, limit: int = 4000,
+               block_edges: Iterable[Tuple[Node, Node, str]] = (), follow_exc: bool = False, decide=None):
     """Explore the CFG from *starts* carrying a constant environment (names -> constants): assignments of
     constants / known names update it, any other assignment forgets the name, decidable tests prune the walk.
     Returns {node id: [environments with which the node is reached]}.  Exceptional edges are not followed."""
     stop = {n.id for n in stop_nodes}
+    blocked = {(a.id, b.id, l) for a, b, l in block_edges}
     seen = set()
     out = {}
     todo = [(n, dict(env0)) for n in starts]
@@ -401,10 +432,19 @@ def const_walk(cfg: CFG, starts: Iterable[Node], env0: dict, stop_nodes: Iterabl
             for t in tgts:
                 if isinstance(t, ast.Name) and isinstance(a, (ast.Assign, ast.AnnAssign)) and val is not None:
                     v = _cval(val, env, fold)
+                    if v is _UNKNOWN and isinstance(val, (ast.Compare, ast.BoolOp)) or (
+                            v is _UNKNOWN and isinstance(val, ast.UnaryOp) and isinstance(val.op, ast.Not)):
+                        # a boolean temporary: remembered symbolically while its operands are not reassigned
+                        if t.id not in {x.id for x in ast.walk(val) if isinstance(x, ast.Name)}:
+                            v = _Sym(val)
                     if v is _UNKNOWN:
                         env2.pop(t.id, None)
                     else:
                         env2[t.id] = v
+                    # a symbolic value goes stale when one of its operands is reassigned
+                    for k_ in [k_ for k_, sv in env2.items() if isinstance(sv, _Sym) and k_ != t.id
+                               and t.id in {x.id for x in ast.walk(sv.expr) if isinstance(x, ast.Name)}]:
+                        env2.pop(k_, None)
                 else:
                     for nm, _i in _targets(t):
                         env2.pop(nm, None)
@@ -420,17 +460,33 @@ def const_walk(cfg: CFG, starts: Iterable[Node], env0: dict, stop_nodes: Iterabl
             for nm, _i in tg:
                 env2.pop(nm, None)
         if n.kind == "test":
-            d = eval_test_const(a, env, fold)
+            d = eval_test_const(a, env, fold, decide)
             for m, l in n.succ:
-                if l == "exc":
+                if (l == "exc" and not follow_exc) or (n.id, m.id, l) in blocked:
                     continue
-                if d is None or (d and l == "t") or (not d and l == "f") or l not in ("t", "f"):
+                if l == "exc":
+                    todo.append((m, env))
+                elif d is None or (d and l == "t") or (not d and l == "f") or l not in ("t", "f"):
                     todo.append((m, env2))
             continue
         for m, l in n.succ:
-            if l != "exc":
-                todo.append((m, env2))
+            if (n.id, m.id, l) in blocked or (l == "exc" and not follow_exc):
+                continue
+            todo.append((m, env if l == "exc" else env2))
     return out
+
+
+def requires_edge(cfg: CFG, target: Node, test: Node, label: str, fold=None) -> bool:
+    """Reaching *target* from the entry requires taking the *label* edge of *test*, up to constant
+    propagation of locals (a `x = None` ... `if x is not None` pair prunes the infeasible path)."""
+    edges = [(test, m, l) for m, l in test.succ if l == label]
+    if target.id not in cfg.reachable([cfg.entry], block_edges=edges, follow_exc=True):
+        return True
+    try:
+        r = const_walk(cfg, [cfg.entry], {}, fold=fold, block_edges=edges, follow_exc=True)
+    except AnalysisError:
+        return False
+    return target.id not in r
 
 
 def const_at(ctx, fi: FuncInfo, du: DefUse, node: Node, e: ast.AST):
